@@ -19,7 +19,7 @@ package gcpkms
 //@ func (*Manager).wipeoutKey
 //@   requires m != nil && m.KeyClient != nil && ctx != nil
 //@   assigns nothing
-//@   axioms tokpos0, kmscount
+//@   axioms tokpos0, kmscount, pageno0, pagenopos
 //@   modifies kmsState, kmsListed, kmsDestroyCalls
 //@   ghostset keyWiped = store(keyWiped, keyIdx(keyName), true)
 //@   sweep[C20]
@@ -28,14 +28,15 @@ package gcpkms
 //@   loop 1 invariant tokPos("") == 0 && kmsCount(keyName) >= 0 && 0 <= tokPos(pageToken) && tokPos(pageToken) <= kmsCount(keyName)
 //@   loop 1 invariant kmsListed >= old(kmsListed) && (kmsListed > old(kmsListed) ==> tokPos(pageToken) < kmsCount(keyName))
 //@   loop 1 invariant[C20] result == nil && 0 <= j && j < tokPos(pageToken) ==> kmsState[j] != 1 && kmsState[j] != 2
-//@   loop 1 decreases[C20] kmsCount(keyName) - tokPos(pageToken) + ite(kmsListed == old(kmsListed), 1, 0)
+//@   loop 1 invariant 0 <= pageNo(pageToken) && (kmsListed > old(kmsListed) ==> pageNo(pageToken) <= kmsPages(keyName))
+//@   loop 1 decreases[C20] ite(kmsListed == old(kmsListed), kmsPages(keyName) + 1 + ite(kmsPages(keyName) < 0, 0 - kmsPages(keyName), 0), kmsPages(keyName) - pageNo(pageToken))
 //@   loop 2 invariant resp != nil && forall(i, rangeindex < i && i < len(resp.CryptoKeyVersions) ==> resp.CryptoKeyVersions[i] != nil && verIdx(resp.CryptoKeyVersions[i].Name) == tokPos(pageToken) + i && resp.CryptoKeyVersions[i].State == kmsState[tokPos(pageToken) + i])
 //@   loop 2 invariant[C20] result == nil && 0 <= j && j < tokPos(pageToken) + rangeindex + 1 ==> kmsState[j] != 1 && kmsState[j] != 2
 
 //@ func (*Manager).Wipeout
 //@   requires m != nil && m.KeyClient != nil && ctx != nil
 //@   assigns nothing
-//@   axioms tokpos0, kmskeycount
+//@   axioms tokpos0, kmskeycount, pageno0, pagenopos
 //@   modifies kmsState, kmsListed, kmsDestroyCalls, keyWiped, kmsKeysListed
 //@   sweep[C20]
 //@   ghostparam j Int
@@ -43,7 +44,8 @@ package gcpkms
 //@   loop 1 invariant keyRing == ringOf(m) && 0 <= tokPos(pageToken) && tokPos(pageToken) <= kmsKeyCount(keyRing)
 //@   loop 1 invariant kmsKeysListed >= old(kmsKeysListed) && (kmsKeysListed > old(kmsKeysListed) ==> tokPos(pageToken) < kmsKeyCount(keyRing))
 //@   loop 1 invariant[C20] 0 <= j && j < tokPos(pageToken) ==> keyWiped[j]
-//@   loop 1 decreases[C20] kmsKeyCount(keyRing) - tokPos(pageToken) + ite(kmsKeysListed == old(kmsKeysListed), 1, 0)
+//@   loop 1 invariant 0 <= pageNo(pageToken) && (kmsKeysListed > old(kmsKeysListed) ==> pageNo(pageToken) <= kmsPages(keyRing))
+//@   loop 1 decreases[C20] ite(kmsKeysListed == old(kmsKeysListed), kmsPages(keyRing) + 1 + ite(kmsPages(keyRing) < 0, 0 - kmsPages(keyRing), 0), kmsPages(keyRing) - pageNo(pageToken))
 //@   loop 2 invariant resp != nil && forall(i, 0 <= i && i < len(resp.CryptoKeys) ==> resp.CryptoKeys[i] != nil && keyIdx(resp.CryptoKeys[i].Name) == tokPos(pageToken) + i)
 //@   loop 2 invariant[C20] 0 <= j && j < tokPos(pageToken) + rangeindex + 1 ==> keyWiped[j]
 
@@ -54,7 +56,7 @@ package gcpkms
 //@ func (*Manager).getEnabledOrPendingKeyVersion
 //@   requires m != nil && m.KeyClient != nil && ctx != nil
 //@   assigns nothing
-//@   axioms tokpos0, kmscount
+//@   axioms tokpos0, kmscount, pageno0, pagenopos
 //@   modifies kmsListed
 //@   sweep[C20]
 //@   ghostparam j Int
@@ -63,7 +65,8 @@ package gcpkms
 //@   loop 1 invariant 0 <= tokPos(pageToken) && tokPos(pageToken) <= kmsCount(parent) && (version != nil ==> version.State == 5)
 //@   loop 1 invariant kmsListed >= old(kmsListed) && (kmsListed > old(kmsListed) ==> tokPos(pageToken) < kmsCount(parent))
 //@   loop 1 invariant[C20] 0 <= j && j < tokPos(pageToken) ==> kmsState[j] != 1
-//@   loop 1 decreases[C20] kmsCount(parent) - tokPos(pageToken) + ite(kmsListed == old(kmsListed), 1, 0)
+//@   loop 1 invariant 0 <= pageNo(pageToken) && (kmsListed > old(kmsListed) ==> pageNo(pageToken) <= kmsPages(parent))
+//@   loop 1 decreases[C20] ite(kmsListed == old(kmsListed), kmsPages(parent) + 1 + ite(kmsPages(parent) < 0, 0 - kmsPages(parent), 0), kmsPages(parent) - pageNo(pageToken))
 //@   loop 2 invariant vers != nil && (version != nil ==> version.State == 5) && forall(i, 0 <= i && i < len(vers.CryptoKeyVersions) ==> vers.CryptoKeyVersions[i] != nil && vers.CryptoKeyVersions[i].State == kmsState[tokPos(pageToken) + i])
 //@   loop 2 invariant[C20] 0 <= j && j < tokPos(pageToken) + rangeindex + 1 ==> kmsState[j] != 1
 
